@@ -135,6 +135,10 @@ func VerifC33Lacing() {
 			sum += int(pg.data[pageHeaderSize+s])
 		}
 		verif.Assert(sum == len(pg.payload), "segment-table-sums-to-page-payload")
+		if sum > 0 && sum == len(pg.payload) {
+			// the page carries the next bytes of the packet: its payload starts where the previous page ended
+			verif.Assert(&pg.payload[0] == &payload[carried], "page-payload-is-next-part-of-packet")
+		}
 		carried += sum
 		lastLace := -1
 		if nseg > 0 {
